@@ -685,3 +685,17 @@ func toNumber(numString string) (reflect.Value, error) {
 func stringToValue(aString string) reflect.Value {
 	return reflect.ValueOf(aString)
 }
+
+// mapItemExpr reports whether the right side of `a, b = expr` is an item
+// expression, possibly written in parentheses, and returns that item expression.
+func mapItemExpr(expr ast.Expr) (ast.Expr, bool) {
+	for {
+		paren, ok := expr.(*ast.ParenExpr)
+		if !ok {
+			break
+		}
+		expr = paren.SubExpr
+	}
+	_, ok := expr.(*ast.ItemExpr)
+	return expr, ok
+}
